@@ -15,6 +15,8 @@ RED_ASM = ["the Gallina mirror of reduction.rs is faithful (validated by differe
            "fuel: theorems are conditional on the model returning Some (never on a particular fuel)",
            OUTSIDE]
 
+META_RULE = ("; metamorphic suite: UD replaced by a fresh free variable, and all free indices shifted by 2^32, must "
+             "commute with reduce (all orders) and apply")
 RULE_RED = ("exhaustive universe of all terms up to 6 (quick) / 7 (thorough) constructors over indices 0..3 (UD and "
             "dangling indices included) plus seeded random terms up to 45 constructors; each under all 7 orders with "
             "limits {0 if terminating, 1, 2, 3, 5, 17, probe}; non-trivial = at least one contraction performed; "
@@ -22,7 +24,7 @@ RULE_RED = ("exhaustive universe of all terms up to 6 (quick) / 7 (thorough) con
 
 PROPS = {
     "C02": dict(
-        suites=["apply"], oracle_re=r"oracle:C02:",
+        suites=["apply", "meta-apply"], oracle_re=r"oracle:C02:",
         rule=("all pairs (receiver, argument) from the universes of terms up to 4x3 (quick) / 5x4 (thorough) constructors "
               "over indices 0..3, plus random receivers under up to 6 binders with free indices crossing them; "
               "non-trivial = substitution changes the body, or the error path on a non-abstraction"),
@@ -55,5 +57,29 @@ PROPS = {
 
 
 def red(suites, tag, explanation, extra_rule=""):
-    return dict(suites=suites, oracle_re=tag, rule=RULE_RED + extra_rule, trusted_base=RED_TB,
+    return dict(suites=suites, oracle_re=tag, rule=RULE_RED + extra_rule + (META_RULE if any(x.startswith("meta") for x in suites) else ""), trusted_base=RED_TB,
                 assumptions=RED_ASM, explanation=explanation)
+
+PROPS["C01"] = red(["reduce", "meta-reduce"], r"oracle:C01:",
+    "Theorems: for all terms, orders, limits: the result of the model of reduce is reached by exactly `count` "
+    "one-step beta contractions (steps step c t t'); count 0 leaves the term unchanged; beta = fst . reduce; UD inert. "
+    "Oracle on the implementation: the result is the count-fold iteration of the Spec step function (and, when it is "
+    "not, a bounded search over all beta paths of that length), count 0 => unchanged.")
+PROPS["C03"] = red(["reduce"], r"oracle:C03:",
+    "Theorems: a run that stops below its limit (or with limit 0) ends in the documented normal form; a term "
+    "already in that form is returned unchanged with count 0, and such a run exists for every limit. "
+    "Oracle: boolean normal-form deciders of the Spec on the implementation's results.")
+PROPS["C04"] = red(["reduce", "history"], r"oracle:C04:",
+    "Theorems: count <= limit; determinism; totality for non-zero limits; reduce(n);reduce(m) = reduce(n+m) "
+    "(both directions, and for every list of positive limits); limit 1 = one step of the step function; limit 0 = "
+    "its iteration until stuck. Oracle: composed same-order histories vs. the single-step iteration.",
+    "; histories: 3000 (quick) / 30000 (thorough) random sequences of 1-7 calls (order, limit 0..6), half of them "
+    "with a single order")
+PROPS["C05"] = red(["reduce"], r"oracle:C05:",
+    "Theorems: the step functions of NOR, CBN, APP, CBV equal the positional selection (first redex in pre-order; "
+    "the same if its path is operator-only; first in post-order; first in post-order outside abstractions), hence "
+    "every step of reduce contracts that redex; HSP only contracts redexes on the head spine. "
+    "Oracle: pos_step on the inputs of all limit-1 runs.")
+PROPS["C08"] = red(["reduce", "apply", "history", "meta-reduce", "meta-apply"], r"oracle:C08:",
+    "Theorems: beta steps never enlarge the free-variable set nor create UD; hence reduce, apply and every "
+    "history of calls preserve closedness and UD-freeness. Oracle: fv / has_ud on implementation results.")
